@@ -49,6 +49,15 @@ let rec perms = function
   | l -> List.concat_map (fun x -> List.map (fun p -> x :: p) (perms (List.filter (fun y -> y <> x) l))) l
 let dedup l = List.sort_uniq compare l
 
+(* canonical form of a state (dicts sorted by key, sets sorted): the order of a dict or set is never observable
+   except as a fallback of the preference order, which cannot make a trace equal to the implementation's *)
+let nkey h = let s = show_n h in (String.length s, s)
+let sort_by f l = List.sort (fun a b -> compare (f a) (f b)) l
+let canon_dict d = sort_by (fun (k, _) -> nkey k) d
+let canon_finder cf = { pl = canon_dict cf.pl; dbt = canon_dict (List.map (fun (k, s) -> (k, sort_by nkey s)) cf.dbt);
+                        tfb = canon_dict cf.tfb }
+let canon_bc bc = { bc with bc_h2i = canon_dict bc.bc_h2i; bc_w = canon_dict bc.bc_w; bc_cf = canon_finder bc.bc_cf }
+
 (* all traces over the wildcards: prio "*" = every pop order (every permutation of the batch's hashes; for a lock
    the rebuilt finder's nodes when there are at most 5), pref "*" = no preference or any single hash *)
 let all_traces anchor (evs : pev list) =
@@ -70,7 +79,7 @@ let all_traces anchor (evs : pev list) =
         match step e bc with
         | Inl (s, bc') -> next := (show_snapshot s :: tr, bc') :: !next
         | Inr st -> finals := ("[" ^ String.concat " " (List.rev tr) ^ "] " ^ show_stop st) :: !finals) prefs) prios) !states;
-    states := dedup !next) evs;
+    states := dedup (List.map (fun (tr, bc) -> (tr, canon_bc bc)) !next)) evs;
   List.iter (fun (tr, _) -> finals := ("[" ^ String.concat " " (List.rev tr) ^ "] ok") :: !finals) !states;
   dedup !finals
 
